@@ -44,6 +44,7 @@ inductive Loc
   | setStarted  -- next: `started := True`
   | callBody    -- `run(params.json)`: load the configuration; next: enter the task body (`task.execute()`)
   | body (k : Nat)  -- inside the task body, `k` internal points passed
+  | raised1     -- SystemExit(1) raised by a finished signal handler, in flight inside the try body; next: `except SystemExit`
   | raised0     -- the body ended itself with `sys.exit(0)`: SystemExit(0) in flight inside the try; next: `except SystemExit`
   | bodyDone    -- body returned; next: restore the SIGTERM disposition
   | restTerm    -- next: restore the SIGINT disposition
@@ -57,7 +58,7 @@ inductive Loc
   deriving DecidableEq, Repr
 
 def Loc.inTry : Loc → Bool
-  | .tryLock | .locked | .rmFailed | .setStarted | .callBody | .body _ | .raised0 | .bodyDone | .restTerm | .restInt | .sysExit | .skipped => true
+  | .tryLock | .locked | .rmFailed | .setStarted | .callBody | .body _ | .raised1 | .raised0 | .bodyDone | .restTerm | .restInt | .sysExit | .skipped => true
   | _ => false
 
 /-- the locations between the done test and the success marker (the lock is held there) -/
@@ -129,11 +130,11 @@ def markEpoch (sh : Shared) (p : Proc) : Option Nat :=
   match p.wroteFailed with | none => some sh.epoch | some e => some e
 
 /-- where `SystemExit(1)` raised by a finished signal handler lands -/
-def afterHandler (cfg : Cfg) (p : Proc) : Loc :=
+def afterHandler (p : Proc) : Loc :=
   match p.loc with
   | .fin (some _) st => .fin none st      -- raised inside the atexit callback: reported and swallowed, callback aborted
   | .fin none st => .fin none st
-  | l => if l.inTry then .herr (hsFirst cfg) 1    -- `except SystemExit` with code 1: `handle_error(1)`
+  | l => if l.inTry then .raised1           -- then `except SystemExit` with code 1: `handle_error(1)`
          else finStart p (.code 1)         -- not protected: leaves `run()`
 
 /-- one step of the main flow (no handler active).  `cleanup` = test-and-set `cleaned`, `rmfile(pid)`,
@@ -158,6 +159,7 @@ def mainStep (cfg : Cfg) (me : Nat) (sh : Shared) (p : Proc) : Shared × Proc :=
         | .exc => (sh, { p with loc := .herr (hsFirst cfg) 1 })
         | .exit 0 => (sh, { p with loc := .raised0, completed := true })
         | .exit (n + 1) => (sh, { p with loc := .herr (hsFirst cfg) (n + 1) })
+  | .raised1 => (sh, { p with loc := .herr (hsFirst cfg) 1 })
   | .raised0 => (sh, { p with loc := .touch })
   | .bodyDone => (sh, { p with loc := .restTerm, termH := false })
   | .restTerm => (sh, { p with loc := .restInt, intH := false })
@@ -189,7 +191,7 @@ def handlerStep (cfg : Cfg) (me : Nat) (sh : Shared) (p : Proc) (code : Nat) : H
       else (sh, { p with hnd := some (.rmPid, code), cleaned := true })
   | .rmPid => ({ sh with pid := none }, { p with hnd := some (.relLock, code) })
   | .relLock => (release sh (.run me), { p with hnd := some (hsAfterClean cfg, code) })
-  | .exit => (sh, { p with hnd := none, loc := afterHandler cfg p })
+  | .exit => (sh, { p with hnd := none, loc := afterHandler p })
 
 /-- one step of process `me` -/
 def stepProc (cfg : Cfg) (me : Nat) (sh : Shared) (p : Proc) : Shared × Proc :=
